@@ -4,6 +4,7 @@ import (
 	"context"
 	"fmt"
 	"math"
+	"runtime"
 	"sort"
 	"strings"
 	"sync"
@@ -250,7 +251,12 @@ func buildC05Scenarios() []*c05Scenario {
 				}
 				epk, err := p2pmsg.NewSignedEonPublicKey(simInstanceID, fix.Real.EonPublicKey().Marshal(), 100, c05CfgIdx, 20, uni.Keys[1])
 				must(err)
-				sc.Bases[kprtopics.EonPublicKey] = []p2pmsg.Message{epk}
+				// announcements of other keypers for the same eon, one of them with a different key
+				epk2, err := p2pmsg.NewSignedEonPublicKey(simInstanceID, fix.Foreign.EonPublicKey().Marshal(), 100, c05CfgIdx, 20, uni.Keys[2])
+				must(err)
+				epk3, err := p2pmsg.NewSignedEonPublicKey(simInstanceID, fix.Real.EonPublicKey().Marshal(), 100, c05CfgIdx, 20, uni.Keys[2])
+				must(err)
+				sc.Bases[kprtopics.EonPublicKey] = []p2pmsg.Message{epk, epk2, epk3}
 			case "primev":
 				sc.Topics = []string{kprtopics.PrimevCommitment}
 				sc.Bases[kprtopics.PrimevCommitment] = []p2pmsg.Message{c05Commitment()}
@@ -394,7 +400,14 @@ func mutateScalar(rt *rapid.T, l string, fd protoreflect.FieldDescriptor, cur pr
 		return protoreflect.ValueOfInt64(int64(genHostileU64(rt, l+"i")))
 	case protoreflect.BytesKind:
 		b := append([]byte{}, cur.Bytes()...)
-		switch rapid.IntRange(0, 5).Draw(rt, l+"bk") {
+		switch rapid.SampledFrom([]int{0, 1, 2, 3, 4, 5, 6, 6, 7, 7}).Draw(rt, l+"bk") {
+		case 6:
+			// one byte short / one byte long: length checks are where off-by-one errors live
+			if len(b) > 0 {
+				b = b[:len(b)-1]
+			}
+		case 7:
+			b = append(b, 0)
 		case 0:
 			b = nil
 		case 1:
@@ -541,6 +554,11 @@ func mutateProto(rt *rapid.T, l string, m protoreflect.Message, depth int) strin
 
 // genC05Input builds the bytes for one case.
 func genC05Input(rt *rapid.T, sc *c05Scenario) (topic string, data []byte, desc string) {
+	return genC05InputL(rt, sc, "")
+}
+
+// genC05InputL is genC05Input with a prefix for the draw labels (several inputs per case).
+func genC05InputL(rt *rapid.T, sc *c05Scenario, lp string) (topic string, data []byte, desc string) {
 	topic = rapid.SampledFrom(sc.Topics).Draw(rt, "topic")
 	bases := sc.Bases[topic]
 	base := proto.Clone(bases[rapid.IntRange(0, len(bases)-1).Draw(rt, "base")]).(p2pmsg.Message)
@@ -629,8 +647,23 @@ func c05Run(tg *c05Target, topic string, data []byte) (sig, detail string, accep
 	}()
 	select {
 	case <-done:
-	case <-time.After(60 * time.Second):
-		return "harness-timeout", "handler did not return within 60 s", true, true
+	case <-time.After(10 * time.Second):
+		// not back after 10 s: is the handler goroutine parked on a mutex (a lock nobody will release)?
+		if st := blockedOnMutex("props.c05Run.func"); st != "" {
+			time.Sleep(3 * time.Second)
+			if st2 := blockedOnMutex("props.c05Run.func"); st2 == st {
+				select {
+				case <-done:
+				default:
+					return "handler-blocked-on-mutex", "handler did not return and its goroutine has been waiting for a mutex for more than 10 s (a hang, not slowness):\n" + st, true, true
+				}
+			}
+		}
+		select {
+		case <-done:
+		case <-time.After(50 * time.Second):
+			return "harness-timeout", "handler did not return within 60 s", true, true
+		}
 	}
 	if tg.drain != nil {
 		tg.drain()
@@ -746,5 +779,82 @@ func TestC05_BaseCoverage(t *testing.T) {
 				}
 			}
 		}
+	}
+}
+
+// blockedOnMutex returns the stack of the goroutine whose stack mentions frame if that goroutine is
+// waiting in sync.Mutex / sync.RWMutex, else "".
+func blockedOnMutex(frame string) string {
+	buf := make([]byte, 4<<20)
+	buf = buf[:runtime.Stack(buf, true)]
+	for _, g := range strings.Split(string(buf), "\n\n") {
+		if !strings.Contains(g, frame) {
+			continue
+		}
+		head := g
+		if i := strings.IndexByte(g, '\n'); i >= 0 {
+			head = g[:i]
+		}
+		if strings.Contains(head, "[sync.Mutex.Lock") || strings.Contains(head, "[sync.RWMutex.") {
+			if len(g) > 3000 {
+				g = g[:3000]
+			}
+			return g
+		}
+	}
+	return ""
+}
+
+// TestC05_Sequences delivers several messages in a row to one long-lived node per scenario: state that a
+// handler keeps between messages (caches, remembered keys, locks) is part of what an attacker controls.
+func TestC05_Sequences(t *testing.T) {
+	rec := recorder("C05")
+	rec.AddRule("sequences: per scenario one long-lived node receives 3-10 inputs in a row (unmutated base messages of its topics, among them eon-key announcements with different keys for the same eon, and structurally mutated ones); same oracle after every input; a handler whose goroutine waits on a mutex for more than 10 s is a hang (violation), any other timeout is inconclusive")
+	scs := buildC05Scenarios()
+	for _, sc := range scs {
+		sc := sc
+		if !(strings.Contains(sc.State, "member") && sc.State != "non-member" || sc.State == "synced") {
+			continue
+		}
+		t.Run(strings.ReplaceAll(sc.Name, "/", "_"), func(t *testing.T) {
+			runRapid(t, N(25, 1200), func(rt *rapid.T) {
+				tg := sc.instantiate()
+				defer tg.Close()
+				n := rapid.IntRange(3, 10).Draw(rt, "seqLen")
+				var descs []string
+				anyAccepted := 0
+				for k := 0; k < n; k++ {
+					var topic, desc string
+					var data []byte
+					if rapid.IntRange(0, 9).Draw(rt, fmt.Sprintf("plain%d", k)) < 6 {
+						topic = rapid.SampledFrom(sc.Topics).Draw(rt, fmt.Sprintf("t%d", k))
+						bases := sc.Bases[topic]
+						bi := rapid.IntRange(0, len(bases)-1).Draw(rt, fmt.Sprintf("b%d", k))
+						data = mustMarshalP2P(bases[bi])
+						desc = fmt.Sprintf("%s base#%d", topic, bi)
+					} else {
+						topic, data, desc = genC05InputL(rt, sc, fmt.Sprintf("s%d", k))
+					}
+					descs = append(descs, desc)
+					saveLastCase(map[string]any{"scenario": sc.Name, "topic": topic, "data_hex": fmt.Sprintf("%x", data), "sequence": descs})
+					sig, detail, accepted, _ := c05Run(tg, topic, data)
+					if tg.DB != nil && len(tg.DB.Srv.Unsupported()) > 0 {
+						rec.Inconclusive(fmt.Sprintf("pgfake unsupported: %v", tg.DB.Srv.Unsupported()))
+						rt.Fatalf("inconclusive: pgfake unsupported %v", tg.DB.Srv.Unsupported())
+					}
+					if sig == "harness-timeout" {
+						rec.Inconclusive(detail)
+						rt.Fatalf("inconclusive: %s", detail)
+					}
+					if sig != "" {
+						fatalf(rt, sig, "%s\nscenario %s, input %d of the sequence %v\ninput %x", detail, sc.Name, k, descs, data)
+					}
+					if accepted {
+						anyAccepted++
+					}
+				}
+				rec.Case(fmt.Sprintf("seq|%s|%v", sc.Name, descs), anyAccepted >= 2, "sequence", "scenario:"+sc.Name)
+			})
+		})
 	}
 }
